@@ -6,6 +6,7 @@ import (
 
 	b377fr "github.com/consensys/gnark-crypto/ecc/bls12-377/fr"
 	b377sis "github.com/consensys/gnark-crypto/ecc/bls12-377/fr/sis"
+	bn254p2 "github.com/consensys/gnark-crypto/ecc/bn254/fr/poseidon2"
 	bb "github.com/consensys/gnark-crypto/field/babybear"
 	bbfft "github.com/consensys/gnark-crypto/field/babybear/fft"
 	bbp2 "github.com/consensys/gnark-crypto/field/babybear/poseidon2"
@@ -14,6 +15,8 @@ import (
 	glfft "github.com/consensys/gnark-crypto/field/goldilocks/fft"
 	glp2 "github.com/consensys/gnark-crypto/field/goldilocks/poseidon2"
 	glsis "github.com/consensys/gnark-crypto/field/goldilocks/sis"
+	kbp2 "github.com/consensys/gnark-crypto/field/koalabear/poseidon2"
+	gnarkhash "github.com/consensys/gnark-crypto/hash"
 
 	"verif/harness/gen"
 	"verif/harness/mon"
@@ -49,9 +52,46 @@ func sisShared[E any](c *mon.Ctx, w *world, N string, newKey func(logDeg, logBou
 	}
 }
 
+// hasherReuse: a hasher object is reusable after Reset whatever happened to it before (its initial state is not a
+// buffer that SetState / Write / Sum may overwrite), and a state handed out by State() is not rewritten later.
+func hasherReuse(c *mon.Ctx, name string, newH func() gnarkhash.StateStorer, b1, b2 []byte) {
+	fresh := newH()
+	fresh.Write(b1)
+	d0 := fresh.Sum(nil)
+	h := newH()
+	h.Write(b2)
+	mid := append([]byte(nil), h.State()...)
+	h.Reset()
+	if err := h.SetState(append([]byte(nil), mid...)); err != nil { // resume a saved state on a fresh / reset object
+		c.Fail(name+"/SetState/error", "%v", err)
+		return
+	}
+	h.Write(b1)
+	h.Sum(nil)
+	handed := h.State()
+	keep := append([]byte(nil), handed...)
+	h.Reset()
+	h.Write(b1)
+	d1 := h.Sum(nil)
+	c.Check("hasher-reuse", name+"/Reset-after-SetState/digest-differs-from-fresh-hasher", string(d0) == string(d1), func() string {
+		return fmt.Sprintf("%s: New; Write(b2); s=State; Reset; SetState(s); Write(b1); Sum; Reset; Write(b1); Sum = %x, a fresh hasher gives %x", name, d1, d0)
+	})
+	c.Check("hasher-reuse", name+"/State/handed-out-state-rewritten", string(keep) == string(handed), func() string {
+		return fmt.Sprintf("%s: the slice returned by State() changed after later calls on the hasher", name)
+	})
+	c.Class(name + "/hasher-reuse")
+}
+
 // smallFields2: goldilocks, babybear and the bls12-377 scalar field: ring-SIS keys, FFT domains and Poseidon2
 // permutation objects shared between calls and goroutines.
 func smallFields2(c *mon.Ctx, w *world) {
+	{
+		blk := func(n int, v byte) []byte { b := make([]byte, n); b[n-1] = v; return b }
+		hasherReuse(c, "bn254/poseidon2.MerkleDamgardHasher", bn254p2.NewMerkleDamgardHasher, blk(32, 5), blk(32, 9))
+		hasherReuse(c, "field/koalabear/poseidon2.MerkleDamgardHasher", kbp2.NewMerkleDamgardHasher, blk(32, 5), blk(32, 9))
+		hasherReuse(c, "field/babybear/poseidon2.MerkleDamgardHasher", bbp2.NewMerkleDamgardHasher, blk(32, 5), blk(32, 9))
+		hasherReuse(c, "field/goldilocks/poseidon2.MerkleDamgardHasher", glp2.NewMerkleDamgardHasher, blk(32, 5), blk(32, 9))
+	}
 	{
 		const N = "field/goldilocks"
 		rng := gen.New(c.Seed, "c18/"+N)
